@@ -5,10 +5,14 @@ import Driver.Layers
 import Driver.OS
 import Driver.BFS
 import Driver.Listing
+import Driver.JsonText
 open Driver
 
 def dispatch (stl : BState × LState) (fs : List (List Char)) : (BState × LState) × String :=
   let st := stl.1
+  match jsonTextCmd fs with
+  | some out => (stl, outFields out)
+  | none =>
   match pureCmd fs with
   | some out => (stl, outFields out)
   | none =>
